@@ -257,6 +257,49 @@ fn cmap_probes() -> Vec<Vec<u8>> {
     v
 }
 
+/// The incremental update of Adversary!ChainUpdate with m objects: a chain through an indirection the loader follows
+/// while parsing (same layout byte for byte; TLC writes it with 3 objects, the worker with n).
+fn chain_update(kind: &str, m: usize, start: usize, hdr: usize, prevsx: u64) -> Vec<u8> {
+    const FIRST: usize = 70001;
+    let mut b: Vec<u8> = vec![];
+    if kind == "prev" {
+        let mut p = prevsx.to_string();
+        for _ in 0..m {
+            let x = start + b.len() - hdr;
+            b.extend_from_slice(format!("xref\n0 0\ntrailer\n<</Size {FIRST}/Prev {p}>>\nstartxref\n{x}\n%%EOF\n").as_bytes());
+            p = x.to_string();
+        }
+        return b;
+    }
+    let mut offs = Vec::with_capacity(m);
+    for i in 1..=m {
+        offs.push(start + b.len() - hdr);
+        let (num, nxt, prv) = (FIRST + i - 1, FIRST + i, (FIRST + i).wrapping_sub(2));
+        let body = match kind {
+            "length" if i == m => "<</Length 3>>\nstream\nabc\nendstream".to_string(),
+            "length" => format!("<</Length {nxt} 0 R>>\nstream\nabc\nendstream"),
+            "length.objstm" if i == m => "<</Type/ObjStm/N 1/First 4/Length 5>>\nstream\n7 0 3\nendstream".to_string(),
+            "length.objstm" => format!("<</Type/ObjStm/N 1/First 4/Length {nxt} 0 R>>\nstream\n7 0 3\nendstream"),
+            _ if i == 1 => format!("<</Type/Catalog/Pages {nxt} 0 R>>"),
+            _ if i == m => format!("<</Type/Page/MediaBox[0 0 9 9]/Parent {prv} 0 R>>"),
+            _ if i > 2 => format!("<</Type/Pages/Count 1/Kids[{nxt} 0 R]/Parent {prv} 0 R>>"),
+            _ => format!("<</Type/Pages/Count 1/Kids[{nxt} 0 R]>>"),
+        };
+        b.extend_from_slice(format!("{num} 0 obj\n{body}\nendobj\n").as_bytes());
+    }
+    let x = start + b.len() - hdr;
+    b.extend_from_slice(format!("xref\n{FIRST} {m}\n").as_bytes());
+    for o in offs {
+        b.extend_from_slice(format!("{o:010} 00000 n \n").as_bytes());
+    }
+    b.extend_from_slice(format!("trailer\n<</Size {}/Prev {prevsx}", FIRST + m).as_bytes());
+    if kind == "kids" {
+        b.extend_from_slice(format!("/Root {FIRST} 0 R").as_bytes());
+    }
+    b.extend_from_slice(format!(">>\nstartxref\n{x}\n%%EOF\n").as_bytes());
+    b
+}
+
 /// Boundary codes of a ToUnicode CMap program (mirrors Adversary!BoundaryProbes): every hex string of 1-4 bytes as it
 /// stands, one below, one above, one byte longer, one byte shorter.
 fn boundary_probes(prog: &[u8]) -> Vec<Vec<u8>> {
@@ -472,6 +515,25 @@ fn worker_case(line: &str) -> String {
     let id = case["id"].clone();
     let ep = case["ep"].as_str().unwrap_or("").to_string();
     let mut bytes = unhex(case["hex"].as_str().unwrap_or(""));
+    // a chain written by the Adversary with 3 objects at the tail: [first, last (1-based), n, header position, Prev, kind]
+    let mut chain_at = usize::MAX;
+    if let Some(c) = case.get("chain").and_then(Value::as_array) {
+        let (s0, e0, n) = (c[0].as_u64().unwrap_or(0) as usize, c[1].as_u64().unwrap_or(0) as usize, c[2].as_u64().unwrap_or(3) as usize);
+        let (hdr, prev, kind) = (c[3].as_u64().unwrap_or(1) as usize, c[4].as_u64().unwrap_or(0), c[5].as_str().unwrap_or("length"));
+        if s0 >= 1 && e0 == bytes.len() && s0 <= e0 {
+            if case["chain_check"].as_bool().unwrap_or(false) {
+                let mut model = vec![b'\n'];
+                model.extend_from_slice(&chain_update(kind, 3, s0 + 1, hdr, prev));
+                if model != bytes[s0 - 1..] {
+                    return json!({"harness_error": "the worker's chain layout differs from the one TLC wrote"}).to_string();
+                }
+            }
+            bytes.truncate(s0 - 1);
+            bytes.push(b'\n');
+            bytes.extend_from_slice(&chain_update(kind, n, s0 + 1, hdr, prev));
+            chain_at = s0;
+        }
+    }
     // repetition blocks written by the Adversary as a few copies: [first, last (1-based), unit length, n] -> n copies
     if let Some(reps) = case.get("reps").and_then(Value::as_array) {
         let mut rs: Vec<(usize, usize, usize, usize)> = reps
@@ -480,7 +542,7 @@ fn worker_case(line: &str) -> String {
             .collect();
         rs.sort_by(|a, b| b.0.cmp(&a.0));
         for (s0, e0, ulen, n) in rs {
-            if s0 >= 1 && e0 <= bytes.len() && s0 + ulen <= e0 + 1 && ulen > 0 {
+            if s0 >= 1 && e0 <= bytes.len() && s0 + ulen <= e0 + 1 && ulen > 0 && e0 < chain_at {
                 let unit = bytes[s0 - 1..s0 - 1 + ulen].to_vec();
                 let mut nb = Vec::with_capacity(bytes.len() + unit.len() * n);
                 nb.extend_from_slice(&bytes[..s0 - 1]);
@@ -659,7 +721,8 @@ fn run(args: &[String]) {
     for i in order {
         let t = recs[i]["tmo_ms"].as_u64().unwrap_or(3000);
         match batches.last_mut() {
-            Some((bt, v)) if *bt == t && v.len() < 64 => v.push(i),
+            // long time limits go with big inputs: small batches, so that they spread over the jobs
+            Some((bt, v)) if *bt == t && v.len() < (if t <= 4000 { 64 } else if t <= 8000 { 8 } else { 2 }) => v.push(i),
             _ => batches.push((t, vec![i])),
         }
     }
@@ -739,6 +802,7 @@ fn run(args: &[String]) {
     for (i, r) in results.into_inner().unwrap().into_iter().enumerate() {
         // h: identity of the input (entry point + bytes + dictionary), for counting distinct inputs
         let h = fnv(format!("{}|{}|{}|{}", recs[i]["ep"], recs[i]["hex"], recs[i]["dict"], recs[i].get("reps").unwrap_or(&Value::Null)).as_bytes());
+        let h = if recs[i].get("chain").is_some() { fnv(format!("{h}{}", recs[i]["chain"]).as_bytes()) } else { h };
         match r {
             Some(mut v) => {
                 v["h"] = json!(h);
